@@ -24,6 +24,7 @@ func (mach *unmarshalMachineTransform) Reset(slab *unmarshalSlab, rv reflect.Val
 	mach.target_rv = rv
 	mach.recv_rv = reflect.New(mach.recv_rt).Elem() // REVIEW: this behavior with ptr vs not for in_rt.  the star-star case is prob not what want.
 	mach.first = true
+	mach.delegate = slab.requisitionMachine(mach.recv_rt) // released when the delegate is done
 	return mach.delegate.Reset(slab, mach.recv_rv, mach.recv_rt)
 }
 
@@ -45,6 +46,7 @@ func (mach *unmarshalMachineTransform) Step(driver *Unmarshaller, slab *unmarsha
 	if !done {
 		return
 	}
+	slab.release()
 	// on the last step, use transform, and finally set in real target.
 	tr_rv, err := mach.trFunc(mach.recv_rv)
 	// do attempt the set even if error.  user may appreciate partial progress.
